@@ -158,8 +158,9 @@ class Job:
                  harness=None, unwind=None, solvers=('minisat',), timeout=120, klass='proof', bound='',
                  shim=None, shim_types=None, oracle=None, canary='ensures', skip_this=None, prop=None,
                  extra_c='', loop_contracts=False, note='', inline_ok=True, cbmc_flags=(), inputs=None,
-                 expect_fail=None, finding=None, layer=0, object_bits=12, mem_gb=12, cex_filter=None, optional=False, via=None, abstract_mul=False, abstract_fp=False, ignore_classes=()):
+                 expect_fail=None, finding=None, layer=0, object_bits=12, mem_gb=12, cex_filter=None, optional=False, via=None, abstract_mul=False, abstract_fp=False, ignore_classes=(), abstract_div=False):
         self.via = via
+        self.abstract_div = abstract_div
         self.ignore_classes = tuple(ignore_classes)
         self.abstract_fp = abstract_fp
         self.abstract_mul = abstract_mul
@@ -559,10 +560,11 @@ def build_job_c(job, kern, canary=False):
     # harness
     if job.harness is not None:
         hdecl, hbody = job.harness(fi, tr)
+        hbody = hbody.replace('/*PRE*/', job.harness_pre or '')
     else:
         hdecl, hbody = auto_harness(job, fi, tr)
     defs += arg_macros(job, fi, tr)
-    parts = [('#define VP_ABSTRACT_MUL 1\n' if job.abstract_mul else '') + ('#define VP_ABSTRACT_FP 1\n' if job.abstract_fp else '') + tr.head, hdecl, defs, SIGNAL_PRELUDE, job.extra_c, '\n'.join(stubs), tr.globals_text,
+    parts = [('#define VP_ABSTRACT_MUL 1\n' if job.abstract_mul else '') + ('#define VP_ABSTRACT_FP 1\n' if job.abstract_fp else '') + ('#define VP_ABSTRACT_DIV 1\n' if job.abstract_div else '') + tr.head, hdecl, defs, SIGNAL_PRELUDE, job.extra_c, '\n'.join(stubs), tr.globals_text,
              '\n'.join(protos_extra), '\n'.join(bodies), hbody]
     return '\n'.join(parts), fi, contract, repl, inlined
 
